@@ -802,6 +802,33 @@ def gen_exp_case(r, paf=False, nmax=8):
             u = [a * f for a in u]
             up = [a * f for a in up]
             up = [b if within([a], [b], sens, mono) else a for a, b in zip(u, up)]
+    if r.chance(0.15):
+        # huge common OFFSETS (1e6 … 1e15, either sign) with small differences: the utilities are only a few units apart
+        # but `scale * utility` would be rounded by up to half an ulp of ~1e15 if the code scaled BEFORE subtracting the
+        # maximum.  Differences are multiples of 1/2 (exact at these magnitudes), the scale is not a power of two, and
+        # the neighbour is the tight pattern: a low-weight candidate drops by the sensitivity while all others rise
+        sens = r.choice([1.0, 2.0, 2.0, 3.0, 0.5, 1.5, 5.0])
+        eps = r.choice([1.2, 0.7, 0.3, 2.3, r.loguniform(0.05, 5.0), r.loguniform(0.05, 5.0)])
+        mono = r.chance(0.25)
+        n = max(n, 2)
+        sc = eps / sens / (1 if mono else 2)
+        spread = min(60.0, 18.0 / sc)
+        off = float(round(r.loguniform(1e6, 1e15))) * r.choice([1, 1, -1])
+        base = [round(2 * r.uniform(0, spread)) / 2 for _ in range(n)]
+        base[r.next() % n] = round(2 * spread) / 2            # one clear favourite, the rest low-weight
+        u = [off + b for b in base]
+        o = min(range(n), key=lambda i: (base[i], r.next()))   # a low-weight candidate
+        if r.chance(0.3):
+            o = r.next() % n
+        if mono:
+            up = [a + sens for a in u]
+            up[o] = u[o]
+            if r.chance(0.5):
+                u, up = u, up
+        else:
+            up = [a + sens for a in u]
+            up[o] = u[o] - sens
+        up = [b if within([a], [b], sens, mono) else a for a, b in zip(u, up)]
     return {"epsilon": eps, "sensitivity": sens, "monotonic": mono, "utility": u, "utility_p": up,
             "measure": None if paf else gen_measure(r, n), "labels": r.chance(0.2)}
 
@@ -1200,7 +1227,7 @@ def gen_cat_case(r):
     n = r.randint(1, 8)
     labels = r.sample(LABEL_POOL, n)
     eps = draw_eps(r)
-    mode = r.choice(["random", "random", "int", "equal", "circulant", "near", "near", "near-equal"])
+    mode = r.choice(["random", "random", "int", "equal", "circulant", "near", "near", "near-equal", "offset"])
     U = [[0.0] * n for _ in range(n)]
     if n >= 2:
         scale = r.choice([1.0, 1.0, 3.0, r.loguniform(1e-2, 1e2), r.loguniform(1e-12, 1e-6), r.loguniform(1e6, 1e12)])
@@ -1217,6 +1244,11 @@ def gen_cat_case(r):
                     v = scale * r.choice([r.uniform(0, 1), r.uniform(0, 1), 0.0, 1.0])
                 elif mode == "int":
                     v = float(r.randint(0, 4))
+                elif mode == "offset":
+                    # utility values = huge common offset + a few units (multiples of 1/2, exact at that magnitude)
+                    if i == 0 and j == 1:
+                        cat_off = float(round(r.loguniform(1e6, 1e15)))
+                    v = cat_off + r.randint(0, 80) * 0.5
                 elif mode in ("equal", "near-equal"):
                     v = scale
                 else:
@@ -1972,14 +2004,14 @@ def check_types(ctx, r, n):
 
 def check(ctx):
     check_binary(ctx, ctx.fork("binary"), ctx.budget(60, 300))
-    check_geometric(ctx, ctx.fork("geometric"), ctx.budget(150, 800))
-    check_exponential(ctx, ctx.fork("exponential"), ctx.budget(500, 3000))
+    check_geometric(ctx, ctx.fork("geometric"), ctx.budget(110, 800))
+    check_exponential(ctx, ctx.fork("exponential"), ctx.budget(450, 3000))
     check_exponential(ctx, ctx.fork("negative-measure"), ctx.budget(20, 200), negative=True)
     check_bernoulli(ctx, ctx.fork("bernoulli"), ctx.budget(60, 300))
     check_paf(ctx, ctx.fork("paf"), ctx.budget(100, 300))
-    check_categorical(ctx, ctx.fork("categorical"), ctx.budget(400, 2500))
-    check_hierarchical(ctx, ctx.fork("hierarchical"), ctx.budget(200, 1000))
-    check_types(ctx, ctx.fork("types"), ctx.budget(260, 2500))
+    check_categorical(ctx, ctx.fork("categorical"), ctx.budget(300, 2500))
+    check_hierarchical(ctx, ctx.fork("hierarchical"), ctx.budget(140, 1000))
+    check_types(ctx, ctx.fork("types"), ctx.budget(200, 2500))
 
 
 # ------------------------------------------------------------------------------------------------------------------
